@@ -235,6 +235,267 @@ pub fn check(c: &Case) -> Result<(), String> {
     }
 }
 
+// ---------------------------------------------------------------------------
+// first calls: every thread's FIRST call into a library happens at the same instant
+// ---------------------------------------------------------------------------
+/// A fresh process whose threads are released by a spin barrier and immediately make their first
+/// call: one construct - update(len) - finalize on their own instance. Expected values come from the
+/// spec model and are computed before any library code has run. The same is then repeated for
+/// `rounds` rounds in the same process; before each round the C libraries' detection cache
+/// (`g_cpu_features`, exposed by the libraries' own BLAKE3_TESTING switch) is put back to "undefined",
+/// which is the state of a fresh process.
+#[derive(Clone, Debug, Serialize, Deserialize)]
+pub struct FirstCase {
+    /// 0 = Rust crate, 1 = C assembly build, 2 = C intrinsics build, 3 = thread i uses library i % 3
+    pub lib: u8,
+    pub jobs: Vec<FirstJob>,
+    pub rounds: u16,
+}
+
+#[derive(Clone, Debug, Serialize, Deserialize)]
+pub struct FirstJob {
+    pub init: BurstInit,
+    pub len: u32,
+    pub content: crate::gen::Content,
+    /// spin iterations between the release and the call (0 = none): staggers the threads by fractions of a microsecond
+    pub stagger: u16,
+    /// feed the input in two updates
+    pub split: bool,
+}
+
+fn first_job_run(lib: u8, job: &FirstJob, data: &[u8], round: u32) -> [u8; 64] {
+    let mut got = [0u8; 64];
+    let cut = if job.split { data.len() / 3 } else { data.len() };
+    match lib % 3 {
+        0 => {
+            let mut h = match &job.init {
+                BurstInit::Plain => blake3::Hasher::new(),
+                BurstInit::Keyed(k) => blake3::Hasher::new_keyed(k),
+                BurstInit::Derive(c) => blake3::Hasher::new_derive_key(&c.string()),
+            };
+            h.update(&data[..cut]);
+            h.update(&data[cut..]);
+            h.finalize_xof().fill(&mut got);
+        }
+        #[cfg(feature = "cshim")]
+        v => {
+            use crate::cshim::CHasher;
+            use crate::props::c06::InitC;
+            let api = crate::props::c06::api_of(v - 1);
+            let ci = match &job.init {
+                BurstInit::Plain => InitC::Plain,
+                BurstInit::Keyed(k) => InitC::Keyed(*k),
+                BurstInit::Derive(c) => {
+                    if round % 2 == 0 {
+                        InitC::DeriveStr(c.clone())
+                    } else {
+                        InitC::DeriveRaw(c.clone())
+                    }
+                }
+            };
+            let mut h = Box::new(CHasher::zeroed());
+            unsafe {
+                ci.init(&api, &mut *h);
+                (api.update)(&mut *h, data.as_ptr() as *const _, cut);
+                if cut < data.len() {
+                    (api.update)(&mut *h, data[cut..].as_ptr() as *const _, data.len() - cut);
+                }
+                (api.finalize)(&*h, got.as_mut_ptr(), 64);
+            }
+        }
+        #[cfg(not(feature = "cshim"))]
+        _ => {
+            let _ = round;
+        }
+    }
+    got
+}
+
+/// Entry point of the child process for first-call cases.
+pub fn first_child_main(path: &str) -> i32 {
+    use std::sync::atomic::{AtomicU32, Ordering};
+    let case: FirstCase = match std::fs::read_to_string(path).map_err(|e| e.to_string()).and_then(|t| serde_json::from_str(&t).map_err(|e| e.to_string())) {
+        Ok(c) => c,
+        Err(e) => {
+            println!("ENGINE: cannot read case: {}", e);
+            return 2;
+        }
+    };
+    let n = case.jobs.len();
+    // inputs and expected outputs: spec model only, no library code runs before the release
+    let prepared: Vec<(Vec<u8>, Vec<u8>)> = case
+        .jobs
+        .iter()
+        .map(|j| {
+            let data = j.content.expand(j.len as usize);
+            let kf = match &j.init {
+                BurstInit::Plain => b3spec::KeyFlags::hash(),
+                BurstInit::Keyed(k) => b3spec::KeyFlags::keyed(k),
+                BurstInit::Derive(c) => b3spec::KeyFlags::derive_key(&c.bytes()),
+            };
+            let want = b3spec::root(&kf, &data).xof(0, 64);
+            (data, want)
+        })
+        .collect();
+    let prepared = Arc::new(prepared);
+    let gate = Arc::new(AtomicU32::new(0));
+    let done = Arc::new(AtomicU32::new(0));
+    let rounds = core::cmp::max(1, case.rounds) as u32;
+    let mut handles = Vec::new();
+    for (i, job) in case.jobs.iter().cloned().enumerate() {
+        let (gate, done, prepared) = (gate.clone(), done.clone(), prepared.clone());
+        let lib = if case.lib % 4 == 3 { (i % 3) as u8 } else { case.lib % 4 };
+        handles.push(std::thread::spawn(move || -> Vec<String> {
+            let mut errs = Vec::new();
+            for r in 0..rounds {
+                let mut spins = 0u32;
+                while gate.load(Ordering::Acquire) <= r {
+                    spins += 1;
+                    if spins > 20_000 {
+                        std::thread::yield_now(); // oversubscribed machine: do not burn a core for ever
+                    } else {
+                        core::hint::spin_loop();
+                    }
+                }
+                for _ in 0..job.stagger {
+                    core::hint::spin_loop();
+                }
+                let got = first_job_run(lib, &job, &prepared[i].0, r);
+                if got[..] != prepared[i].1[..] {
+                    errs.push(format!(
+                        "thread {} round {} (lib {}): {:?} over {} bytes gave {} but alone it yields {}",
+                        i,
+                        r,
+                        lib,
+                        job.init,
+                        job.len,
+                        crate::runner::hex(&got[..16]),
+                        crate::runner::hex(&prepared[i].1[..16])
+                    ));
+                }
+                done.fetch_add(1, Ordering::AcqRel);
+            }
+            errs
+        }));
+    }
+    for r in 0..rounds {
+        // every thread has finished round r-1 here; put the C libraries back into the never-called state
+        #[cfg(feature = "cshim")]
+        unsafe {
+            *crate::cshim::api_asm().features = crate::cshim::F_UNDEFINED;
+            *crate::cshim::api_intr().features = crate::cshim::F_UNDEFINED;
+        }
+        std::thread::sleep(std::time::Duration::from_micros(if r == 0 { 2000 } else { 50 })); // let the threads reach their spin loops
+        gate.store(r + 1, Ordering::Release);
+        let mut spins = 0u64;
+        while done.load(Ordering::Acquire) < (r + 1) * n as u32 {
+            spins += 1;
+            if spins > 2000 {
+                std::thread::yield_now();
+            }
+        }
+    }
+    let mut failed = 0;
+    for h in handles {
+        match h.join() {
+            Ok(errs) => {
+                for e in errs.iter().take(3) {
+                    println!("{}", e);
+                }
+                failed += errs.len();
+            }
+            Err(_) => {
+                println!("a thread panicked");
+                failed += 1;
+            }
+        }
+    }
+    if failed > 0 {
+        1
+    } else {
+        0
+    }
+}
+
+fn run_first_child(c: &FirstCase) -> Result<(), String> {
+    use std::sync::atomic::{AtomicU64, Ordering};
+    static N: AtomicU64 = AtomicU64::new(0);
+    let path = crate::hist::scratch_dir().join(format!("c18-first-{}-{}.json", std::process::id(), N.fetch_add(1, Ordering::Relaxed)));
+    std::fs::write(&path, serde_json::to_string(c).map_err(|e| format!("ENGINE: {}", e))?).map_err(|e| format!("ENGINE: write case: {}", e))?;
+    let exe = std::env::current_exe().map_err(|e| format!("ENGINE: {}", e))?;
+    let out = std::process::Command::new(exe).arg("c18-first").arg(&path).output().map_err(|e| format!("ENGINE: spawn child: {}", e));
+    let _ = std::fs::remove_file(&path);
+    let out = out?;
+    let so = String::from_utf8_lossy(&out.stdout).to_string();
+    match out.status.code() {
+        Some(0) => Ok(()),
+        Some(1) => Err(format!("{} threads making their first calls at once: {}", c.jobs.len(), so.lines().next().unwrap_or(""))),
+        Some(2) => Err(format!("ENGINE: child: {}", so)),
+        Some(k) => Err(format!("child process exited with status {}: {} {}", k, so, String::from_utf8_lossy(&out.stderr))),
+        None => {
+            use std::os::unix::process::ExitStatusExt;
+            Err(format!("child process with {} threads was killed by signal {:?}", c.jobs.len(), out.status.signal()))
+        }
+    }
+}
+
+/// Same confirm-by-rerun policy as `check`.
+pub fn check_first(c: &FirstCase) -> Result<(), String> {
+    let first = match run_first_child(c) {
+        Ok(()) => return Ok(()),
+        Err(m) if m.starts_with("ENGINE") => return Err(m),
+        Err(m) => m,
+    };
+    let mut amplified = c.clone();
+    amplified.rounds = amplified.rounds.saturating_mul(4).max(200);
+    let (mut again, tries) = (0, 4);
+    for _ in 0..tries {
+        match run_first_child(&amplified) {
+            Ok(()) => {}
+            Err(m) if m.starts_with("ENGINE") => {}
+            Err(_) => again += 1,
+        }
+    }
+    if again > 0 {
+        Err(format!("{} [reproduced in {} of {} amplified re-executions]", first, again, tries))
+    } else {
+        Err(format!("ENGINE-UNCONFIRMED: {} [not reproduced in {} amplified re-executions]", first, tries))
+    }
+}
+
+pub fn classify_first(c: &FirstCase) -> Classes {
+    let big = c.jobs.iter().filter(|j| j.len > 8192 && !j.split).count();
+    Classes::new(c.jobs.len() >= 2 && big >= 2)
+        .tag(c.lib % 4 == 0, "first-calls:Rust")
+        .tag(c.lib % 4 == 1, "first-calls:C-assembly-build")
+        .tag(c.lib % 4 == 2, "first-calls:C-intrinsics-build")
+        .tag(c.lib % 4 == 3, "first-calls:mixed-libraries")
+        .tag(big >= 2, ">=2-first-calls-with-one-update>8KiB")
+        .tag(c.jobs.len() > 8, "threads>8")
+}
+
+fn first_strategy(tier: Tier) -> BoxedStrategy<FirstCase> {
+    let rounds = tier.pick(60u16, 400u16);
+    let init = prop_oneof![
+        2 => Just(BurstInit::Plain),
+        2 => gen::key32().prop_map(BurstInit::Keyed),
+        2 => gen::ctx_spec(120, false).prop_map(BurstInit::Derive),
+    ];
+    let len = prop_oneof![
+        1 => 0u32..=1024,
+        2 => 1025u32..=8192,
+        4 => 8193u32..=40_000,
+        2 => 40_000u32..=300_000,
+        1 => crate::gen::select(vec![4096u32, 8192, 8193, 16384, 16385, 32768, 65536, 102_400]),
+    ];
+    let job = (init, len, gen::content(), prop_oneof![3 => Just(0u16), 2 => 0u16..=300, 1 => 0u16..=5000], prop::bool::weighted(0.2))
+        .prop_map(|(init, len, content, stagger, split)| FirstJob { init, len, content, stagger, split });
+    (prop_oneof![1 => Just(0u8), 3 => Just(1u8), 3 => Just(2u8), 2 => Just(3u8)], crate::gen::select(vec![2usize, 3, 4, 8, 12, 16]))
+        .prop_flat_map(move |(lib, n)| (Just(lib), prop::collection::vec(job.clone(), n..=n)))
+        .prop_map(move |(lib, jobs)| FirstCase { lib, jobs, rounds })
+        .boxed()
+}
+
 fn task_weight(t: &Task) -> usize {
     match t {
         Task::OneShot(x) => x.len,
@@ -350,6 +611,16 @@ pub fn subs() -> Vec<Box<dyn DynSub>> {
         strategy,
         classify,
         check,
+        known: None,
+        crumb: false,
+    }),
+    Box::new(PropSub::<FirstCase> {
+        name: "first-calls",
+        rule: "proptest: a FRESH child process with 2-16 threads, each with its own instance (Rust crate, C assembly build, C intrinsics build, or mixed), input (0-300000 bytes, mostly one update > 8 KiB) and mode; expected outputs come from the spec model before any library code has run; the threads are released by a spin barrier (optional sub-microsecond stagger) so that their very first calls, and with them CPU-feature detection, happen at the same instant; then 60 (quick) / 400 (thorough) further rounds in the same process with the C libraries' detection cache reset to 'undefined' before each; oracle: every output equals what the thread yields alone; confirm-by-rerun as above; non-trivial = >=2 threads whose first call is one update of more than 8 KiB",
+        cases: (160, 2_000),
+        strategy: first_strategy,
+        classify: classify_first,
+        check: check_first,
         known: None,
         crumb: false,
     })]
